@@ -89,11 +89,12 @@ func grammarFor(tier string) *Grammar {
 	g.Roots = []string{"query", "mutation"}
 	g.VarModes = []int{VarGiven, VarDefault, VarAbsent, VarNull}
 	g.Fields = map[string][]string{
-		"Query": {"str", "arg", "t", "node", "u", "__typename"}, "Mutation": {"m1", "m3"},
+		"Query": {"str", "arg", "t", "targ", "node", "u", "__typename"}, "Mutation": {"m1", "m3"},
 		"T": {"id", "name", "kid", "peer", "u", "__typename"}, "S": {"id", "peer"}, "Node": {"id", "__typename"},
 		"Named": {"name"}, "Deep": {"peer"}, "U": {"__typename"}}
-	g.Alias = map[string]bool{"Query.str": true, "T.id": true, "Query.t": true}
+	g.Alias = map[string]bool{"Query.str": true, "T.id": true}
 	g.ArgForms = []int{ArgNone, ArgLit, ArgVar, ArgBoth, ArgNeg, ArgNull}
+	g.TargForms = []int{ArgNone, ArgLit, ArgVar}
 	g.Conds = []string{"T", "S", "Node", "Named", "Deep", "U"}
 	return g
 }
@@ -242,7 +243,9 @@ func (w *worker) runHTTP(es graphql.ExecutableSchema, limit *int, text string, r
 	srv.AddTransport(transport.POST{})
 	srv.SetQueryCache(w.cache)
 	if limit != nil {
-		srv.Use(extension.FixedComplexityLimit(*limit))
+		// the per-request form of the extension (the executor path uses FixedComplexityLimit)
+		l := *limit
+		srv.Use(&extension.ComplexityLimit{Func: func(context.Context, *graphql.OperationContext) int { return l }})
 	}
 	body := map[string]any{"query": text}
 	if rawVars != nil {
@@ -708,11 +711,6 @@ func main() {
 // samples: a few explored cases, chosen deterministically.
 func samples(cfg *Config, schema *ast.Schema, ct *customTable) []any {
 	var out []any
-	pick := []struct {
-		text string
-		as   Assign
-	}{}
-	_ = pick
 	n := 0
 	cfg.Grammar.Enumerate(min(3, cfg.MaxNodes), func(op *Op) {
 		n++
